@@ -440,8 +440,7 @@ def plusUpd (m : M) (pe : Str × FileEvent) : M :=
 theorem N_plusUpd (m : M) (pe : Str × FileEvent) : N (plusUpd m pe) = plusUpd (N m) pe := rfl
 
 theorem plusLineTest_N (m : M) (l : L) : plusLineTest (N m) l = plusLineTest m l := by
-  unfold plusLineTest
-  simp only [headerLineTest_N]
+  unfold plusLineTest; nfields; simp
 
 theorem handlePlusLine_eq (cfg : Cfg) (m : M) (l : L) : handlePlusLine cfg m l =
     if !plusLineTest m l then .ok (false, m) else
@@ -1295,7 +1294,7 @@ theorem headerLineTest_P (p : List Row) (m : M) : headerLineTest (P p m) = heade
 theorem minusLineTest_P (p : List Row) (m : M) (l : L) : minusLineTest (P p m) l = minusLineTest m l := by
   unfold minusLineTest; simp only [headerLineTest_P]; pfields
 theorem plusLineTest_P (p : List Row) (m : M) (l : L) : plusLineTest (P p m) l = plusLineTest m l := by
-  unfold plusLineTest; simp only [headerLineTest_P]
+  unfold plusLineTest; pfields
 theorem submoduleShortTest_P (p : List Row) (m : M) (l : L) : submoduleShortTest (P p m) l = submoduleShortTest m l := by
   unfold submoduleShortTest; pfields
 
@@ -2421,7 +2420,7 @@ theorem chain_plain (cfg : Cfg) (m0 m : M) (l : L) (e1 : handleCommitMeta cfg m0
   have e3 := handleDiffHeaderDiff_not_mine cfg m l no.diff
   have e4 := handleFileOperation_not_mine cfg m l (by simp [hlt])
   have e5 := handleMinusLine_not_mine cfg m l (by simp [minusLineTest, hlt])
-  have e6 := handlePlusLine_not_mine cfg m l (by simp [plusLineTest, hlt])
+  have e6 := handlePlusLine_not_mine cfg m l (by simp [plusLineTest, hnd])
   have e7 := handleHunkHeader_not_mine cfg m l no.hunkHeader
   have e8 := handleModeLine_not_mine cfg m l no.oldMode no.newMode
   have e9 := handleMisc_not_mine cfg m l no.onlyIn no.binary
